@@ -446,4 +446,27 @@ def checkMany (params lines : List String) : CaseResult := Id.run do
   if !seen && r.specs.isEmpty && r.bad.isEmpty then r := { r with bad := ["c13many: incomplete record"] }
   return r
 
+/-- `key=value` among the words of a line -/
+def kvTwo (ws : List String) (key : String) : Option String :=
+  (ws.find? (·.startsWith (key ++ "="))).map (fun w => (w.drop (key.length + 1)).toString)
+
+/-- Family `c13two`: k tokens wait at one timer catch event when its timer fires once at its due time: each of them was
+listening for that firing, each continues exactly once. -/
+def checkTwo (_params lines : List String) : CaseResult := Id.run do
+  let mut r : CaseResult := { nontrivial := true }
+  let mut seen := false
+  for ln in lines do
+    match words ln with
+    | "harness-error" :: _ => r := { r with bad := ln :: r.bad }
+    | "obs" :: "two" :: rest =>
+      seen := true
+      let k := (kvTwo rest "tokens").getD "?"
+      if (kvTwo rest "visits").getD "" != k then
+        r := { r with bad := s!"c13two: {(kvTwo rest "visits").getD "?"} of {k} tokens reached the catch event" :: r.bad }
+      else if (kvTwo rest "continued").getD "" != k || (kvTwo rest "ended").getD "" != k then
+        r := { r with specs := s!"catch_once_per_waiting_token: {k} tokens were waiting at the timer catch event when its timer fired at its due time; {(kvTwo rest "continued").getD "?"} continued, {(kvTwo rest "ended").getD "?"} reached the end event" :: r.specs }
+    | _ => pure ()
+  if !seen && r.bad.isEmpty then r := { r with bad := ["c13two: incomplete record"] }
+  return r
+
 end Bpmn.Driver.C13
